@@ -69,9 +69,9 @@ class MemoryTester(MemoryElement):
                         'Error in data - expected: {}, actual: {}, address:{}',
                         expectedValue, actualValue, address)
 
-                if self._update_finished_cb:
-                    self._update_finished_cb(self)
-                    self._update_finished_cb = None
+            if self._update_finished_cb:
+                self._update_finished_cb(self)
+                self._update_finished_cb = None
 
     def read_data(self, start_address, size, update_finished_cb):
         """Request an update of the memory content"""
